@@ -86,20 +86,27 @@ def parseDPol (ws : List String) : Option DPol := do
             let (_, r) ← parseRemedy ("id=0" :: ws)
             if ws.contains "nohdr" then none else pure (DKind.throttle r)
           else if kind == "retry" then do
-            let _ ← kvInt ws "attempts"
+            let att ← kvInt ws "attempts"
             let _ ← kvInt ws "cooldown"
             let _ ← kvInt ws "mult"
-            let _ ← kvInt ws "lo"
-            let _ ← kvInt ws "hi"
-            pure DKind.retry
+            let lo ← kvInt ws "lo"
+            let hi ← kvInt ws "hi"
+            pure (DKind.retry att lo hi)
+          else if kind == "oauth" || kind == "apikey" || kind == "basic" || kind == "acct" then pure DKind.other
+          else if kind == "fixed" then do
+            let st ← kvInt ws "status"
+            pure (DKind.fixed st)
+          else if kind == "cache" then do
+            let _ ← kvNat ws "ttl"      -- (longer than any case: entries never expire in the model)
+            let mr ← kvNat ws "maxrec"
+            if scope == "e" then pure (DKind.cache mr) else none
           else none
   pure { ep := ep, name := pctDec name, enabled := enabled != 0, kind := k }
 
-def fmtDispatch : Answer → String
-  | .noop => "pass"
-  | .early s => s!"early {s} body={pctEnc "Too many requests"}"
-  | .err _ => "err:dispatch"
-  | .panic => "panic"
+def fmtDispatch : DAns → String
+  | .pass => "pass"
+  | .early s b => s!"early {s} body={pctEnc b}"
+  | .err => "err:dispatch"
 
 structure Tbl where
   remedies : List (Nat × Remedy) := []
@@ -129,7 +136,7 @@ structure RunSt where
   started : Bool := false    -- an op of this case was already seen (`wiring` must be the first)
   dpols : List DPol := []    -- dispatcher family: configured policies (in order)
   dloaded : Bool := false    -- … a configuration was accepted and is in force
-  dst : State Key := []      -- … its own rate-limit state (services.Initialize per `dload`)
+  dst : DState := {}         -- … its own rate-limit state and response cache (services.Initialize per `dload`)
 
 def parseWiring (ws : List String) : Option Bool :=
   match kv ws "hasher" with
@@ -149,8 +156,8 @@ def runStep1 (s : RunSt) (line : String) : RunSt × String :=
     | some p => ({ s with dpols := s.dpols ++ [p] }, "ok")
     | none => (s, "bad-op")
   | ["dload"] =>
-    if accepted s.dpols then ({ s with dloaded := true, dst := [] }, "ok")
-    else ({ s with dloaded := false, dst := [] }, "refused:duplicate-name")
+    if accepted s.dpols then ({ s with dloaded := true, dst := {} }, "ok")
+    else ({ s with dloaded := false, dst := {} }, "refused:duplicate-name")
   | "dreq" :: ws =>
     match kv ws "url", kv ws "method", kvNat ws "t", parseHdrs (kvAll ws "h") with
     | some u, some m, some t, some hs =>
@@ -233,6 +240,7 @@ structure JudgeSt where
   dloaded : Bool := false
   dhist : List (Event PKey) := []   -- dispatcher family, most recent first
   dskip : Bool := false             -- a request ran two throttling remedies: verdicts not attributable
+  badFid : String := "-"            -- finding class of `bad`, when it falls into one
 
 def parseAnswer (out : String) : Option Answer :=
   match (words out).filter (fun w => !w.startsWith "reads=") with
@@ -260,28 +268,55 @@ def judgeStep1 (s : JudgeSt) (op out : String) : JudgeSt :=
     match kv ws "url", kv ws "method", kvNat ws "t", parseHdrs (kvAll ws "h") with
     | some u, some m, some t, some hs =>
       if !s.dloaded then s else
-      let ths := throttlesOf s.dpols (pctDec u) m
-      let ows := words out
-      let ans : Option Answer := match ows with
-        | ["pass"] => some .noop
+      let url := pctDec u
+      let ths := throttlesOf s.dpols url m
+      let ch := chain s.dpols url m
+      -- remedies of the chain that may answer in the throttling remedy's place
+      let fixedFires := ch.any (fun p => match p.kind with
+        | .fixed _ => lookupHdr hs "early-response" == "true" | _ => false)
+      let hasCache := ch.any isCache
+      let ans : Option DAns := match words out with
+        | ["pass"] => some .pass
         | ["early", st, b] =>
-          if b == "body=" ++ pctEnc "Too many requests" then st.toInt?.map .early else none
+          if b.startsWith "body=" then st.toInt?.map (fun c => DAns.early c (pctDec (b.drop 5).toString)) else none
         | _ => none
       match ths, ans with
-      | [], some .noop => s
-      | [], _ => { s with bad := s.bad <|> some s!"request-without-throttling-remedy-not-passed t={t} got={pctEnc out}" }
+      | _, none => { s with bad := s.bad <|> some s!"unparsable-answer:{pctEnc out}" }
+      | [], some .pass => s
+      | [], some _ =>
+        if fixedFires || hasCache then s
+        else { s with bad := s.bad <|> some s!"request-without-throttling-remedy-not-passed t={t} got={pctEnc out}" }
       | [(i, r)], some a =>
         let p : PReq := ⟨r, hs, t⟩
-        if !answerOk p a then
-          { s with bad := s.bad <|> some s!"rejection-not-as-configured t={t} got={pctEnc out} want-status={effStatus r}" }
-        else match observe1P p a with
-          | some e =>
-            -- per remedy AND endpoint as configured: the policy's position is part of the group identity
-            let e' : Event PKey := { e with key := ⟨e.key.code, ⟨s!"{i}#{e.key.spec.remedy}", e.key.spec.group⟩⟩ }
-            { s with dhist := e' :: s.dhist }
-          | none => s
-      | [_], none =>
-        { s with bad := s.bad <|> some s!"rejection-not-as-configured t={t} got={pctEnc out} (status/body of a throttling rejection)" }
+        -- the throttling remedy's own verdict as far as it shows: a pass, or ITS rejection (status + body)
+        let own : Option Answer := match a with
+          | .pass => some .noop
+          | .early st b => if b == tooMany && st == effStatus r then some (.early st) else none
+          | .err => none
+        match own with
+        | some a' =>
+          if !answerOk p a' then
+            -- (with a caching remedy in the chain: a cached rejection replayed to a request the configuration
+            --  lets pass or rejects otherwise — class of finding F09g)
+            { s with bad := s.bad <|> some s!"rejection-not-as-configured t={t} got={pctEnc out} want-status={effStatus r}",
+                     badFid := if s.bad.isNone && hasCache then (findingD s.dpols).getD "-" else s.badFid }
+          else match observe1P p a' with
+            | some e =>
+              -- per remedy AND endpoint as configured: the policy's position is part of the group identity
+              let e' : Event PKey := { e with key := ⟨e.key.code, ⟨s!"{i}#{e.key.spec.remedy}", e.key.spec.group⟩⟩ }
+              { s with dhist := e' :: s.dhist }
+            | none => s
+        | none =>
+          -- another remedy of the chain answered (a fixed response, a cached response): the throttling verdict
+          -- of this request does not show; the case is then compared with the model only
+          let hasFixed := ch.any (fun p => match p.kind with | .fixed _ => true | _ => false)
+          if hasCache && !hasFixed then
+            -- nothing but throttling rejections can have been stored: a cached (possibly clobbered) rejection is
+            -- replayed to a request whose own verdict does not show — class of finding F09g
+            { s with bad := s.bad <|> some s!"cached-gateway-rejection-replayed t={t} got={pctEnc out}",
+                     badFid := if s.bad.isNone then (findingD s.dpols).getD "-" else s.badFid }
+          else if fixedFires || hasCache then { s with dskip := true }
+          else { s with bad := s.bad <|> some s!"rejection-not-as-configured t={t} got={pctEnc out} want-status={effStatus r}" }
       | _, _ => { s with dskip := true }
     | _, _, _, _ => s
   | "remedy" :: ws =>
@@ -363,7 +398,7 @@ def judgeStep (s : JudgeSt) (op out : String) : JudgeSt :=
 
 def judgeFinish (s : JudgeSt) : String :=
   match s.bad with
-  | some b => s!"fail - {b}"
+  | some b => s!"fail {s.badFid} {b}"
   | none =>
     let hP := s.hist.reverse ++ (if s.dskip then [] else s.dhist.reverse)
     -- groups as the allocation table distinguishes them (theorem `plugin_spec_holds_groups`)
@@ -372,9 +407,11 @@ def judgeFinish (s : JudgeSt) : String :=
     else
       let keys := dedupKeys (h.map (·.key)) []
       let failing := keys.filter fun k => !holdsKeyRev capExact (keyHist k h)
-      -- no finding of C09 is open: every failure is unexplained
-      let fid := "-"
+      -- plugin level: no open finding; dispatcher level (groups "<position>#<name>"): `findingD`
       let pick := failing.head?
+      let fid := match pick with
+        | some k => if k.remedy.contains '#' then (findingD s.dpols).getD "-" else "-"
+        | none => "-"
       match pick with
       | none => s!"fail {fid} spec-violated"
       | some k =>
